@@ -106,7 +106,8 @@ def load_known(prop):
         return []
     with open(path) as fp:
         data = json.load(fp)
-    return [f for f in data.get('findings', []) if prop in f.get('properties', [])]
+    disabled = set((os.environ.get('VF_KF_DISABLE') or '').split(','))   # triage aid only
+    return [f for f in data.get('findings', []) if prop in f.get('properties', []) and f['id'] not in disabled]
 
 
 def attribute(prop, case, v, known):
